@@ -141,7 +141,12 @@ pub enum ChildEnd {
 }
 
 /// Spawn `lvh one ...` for a single case and wait with a timeout.
-pub fn spawn_one(
+pub fn spawn_one(prop_id: &str, tier: Tier, seed: u64, gen: &str, n: u64, scratch: &Path, timeout: Duration) -> ChildEnd {
+    spawn_one_env(prop_id, tier, seed, gen, n, scratch, timeout, &[])
+}
+/// The same with extra environment variables for the child (time zone, locale, ...).
+#[allow(clippy::too_many_arguments)]
+pub fn spawn_one_env(
     prop_id: &str,
     tier: Tier,
     seed: u64,
@@ -149,6 +154,7 @@ pub fn spawn_one(
     n: u64,
     scratch: &Path,
     timeout: Duration,
+    env: &[(&str, &str)],
 ) -> ChildEnd {
     let out = scratch.join(format!("one-{}-{}-{}.json", std::process::id(), strhash(gen) % 100000, n));
     let exe = std::env::current_exe().unwrap();
@@ -167,6 +173,7 @@ pub fn spawn_one(
             "--out",
             out.to_str().unwrap(),
         ])
+        .envs(env.iter().map(|(k, v)| (k.to_string(), v.to_string())))
         .stdin(Stdio::null())
         .stdout(Stdio::null())
         .stderr(Stdio::piped())
